@@ -84,6 +84,15 @@ CHECKS = {
              'every process. Environment nondeterminism is the only thing the property depends on, so it is what the simulator owns here.',
         note='Real hash seeds only (no faked set orders); exception type is the outcome; debug stream written to outf is not compared (it prints object addresses by design and is not part of the returned text).'),
 }
+CHECKS['C20'] = dict(
+    category='exploration', design_ref='DESIGN.md section 4, C20',
+    technique='deterministic simulation with fault injection: twin engines (compiled vs. registered generator predicates) under one seeded consumer schedule with abandonment at every point, plus a raise injected at every native invocation/resumption',
+    text='Every seeded world is built twice - all fact predicates compiled vs. a seeded subset supplied as registered generator functions (all three '
+         'registration styles, yield True/False, some next to dynamic facts) - and both engines are driven by the same schedule: enumerate, abandon '
+         'after every k by close and by drop, re-run. Observation logs must be identical. Then every native invocation gets a raise injected before '
+         'its first yield and on resumption: the exception must reach the consumer as the same object, after a prefix of the compiled answers, '
+         'leaving no binding. Native arguments must be engine terms or Python constants.',
+    note='Differential oracle (engine A is the model for B); the simulator contributes the lifecycle schedule and the faults. Worlds that hit a RecursionError on either side (cyclic terms) are discarded.')
 
 NOT_APPLICABLE = [
     ('C01', 'answer sequence is a pure function of (program text, query): no schedule, fault, clock or history in the statement; needs differential testing against a reference Prolog, not a simulator (DESIGN.md section 5)'),
@@ -98,7 +107,7 @@ NOT_APPLICABLE = [
 ]
 
 PENDING = {p: 'claimed in DESIGN.md; its check is not built yet at this commit (work in progress), so nothing is claimed for it here' for p in
-           ['C04', 'C20']}   # property id -> reason, for claimed-in-design properties whose check is not built yet
+           ['C04']}   # property id -> reason, for claimed-in-design properties whose check is not built yet
 
 
 def main():
